@@ -6,11 +6,14 @@ from pyvc.load import load_all; load_all()
 from pyvc import logic as L, registry as R
 import z3
 T = int(sys.argv[1]) if len(sys.argv) > 1 else 60
-combos = sorted({tuple(sorted(set(c.theories) | {"core"})) for c in R.CONTRACTS.values()}) + [tuple(L.all_theories())]
+PID = sys.argv[2] if len(sys.argv) > 2 else None
+combos = sorted({tuple(sorted(set(c.theories) | {"core"})) for c in R.CONTRACTS.values() if PID is None or PID in c.props})
+if PID is None:
+    combos.append(tuple(L.all_theories()))
 bad = 0
 for combo in combos:
     axs = L.axioms_of(set(combo)) + L.distinctness_axioms()
-    for seed in (0, 1, 2):
+    for seed in ((0, 1, 2) if PID is None else (0, 1)):
         s = z3.Solver(); s.set("timeout", T * 1000); s.set("random_seed", seed); s.set(unsat_core=True)
         for k, (n, a) in enumerate(axs):
             s.assert_and_track(a, z3.Bool("ax_%d" % k))
